@@ -1,5 +1,6 @@
 use crate::messages::message::Payload;
 use crate::messages::{OutPoint, TxIn, TxOut, COINBASE_OUTPOINT_HASH, COINBASE_OUTPOINT_INDEX};
+use crate::script::stack::decode_bool;
 use crate::script::{op_codes, Script, TransactionChecker, NO_FLAGS, PREGENESIS_RULES};
 use crate::transaction::sighash::SigHashCache;
 use crate::util::{sha256d, var_int, ChainGangError, Hash256, Serializable};
@@ -120,11 +121,6 @@ impl Tx {
             let tx_in = &self.inputs[input];
             let tx_out = utxos.get(&tx_in.prev_output).unwrap();
 
-            let mut script = Script::new();
-            script.append_slice(&tx_in.unlock_script.0);
-            script.append(op_codes::OP_CODESEPARATOR);
-            script.append_slice(&tx_out.lock_script.0);
-
             let mut tx_checker = TransactionChecker {
                 tx: self,
                 sig_hash_cache: &mut sighash_cache,
@@ -140,7 +136,18 @@ impl Tx {
                 NO_FLAGS
             };
 
-            script.eval(&mut tx_checker, flags)?;
+            // The unlocking script is evaluated on its own; the locking script then runs from its
+            // first opcode on the stack that was left, so nothing in the unlocking script (an
+            // unterminated push, OP_RETURN, an open conditional) can skip or cut short the lock.
+            let unlock_script: &Script = &tx_in.unlock_script;
+            let lock_script: &Script = &tx_out.lock_script;
+            let (stack, _, _) =
+                unlock_script.eval_with_stack(&mut tx_checker, flags, None, None, None, None)?;
+            let (stack, _, _) =
+                lock_script.eval_with_stack(&mut tx_checker, flags, None, None, Some(stack), None)?;
+            if stack.is_empty() || !decode_bool(&stack[stack.len() - 1]) {
+                return Err(ChainGangError::ScriptError("Top of stack is false".to_string()));
+            }
         }
 
         if use_genesis_rules {
